@@ -99,6 +99,46 @@ def accessor_use_rule(M, rep, R5, nctx):
 
 
 
+def create_link_rule(M, rep, R3):
+    """H5Group.create_link stores exactly one hard link to the target's own group under the requested name on every normal
+    path -- also when a link of that name exists (it is replaced). Shared with C02 (last assignment wins)."""
+    rcfg = Config(M, mode="raw")
+    rcfg.compose = False
+    hg = M.classes.get("H5Group")
+    f = hg.methods.get("create_link") if hg else None
+    if f is None:
+        rep.bad(R3, "H5Group.create_link", "required mechanism not found")
+    else:
+        bad = None
+        n = 0
+        for p in explore(rcfg, f, "H5Group", None, 2000):
+            if not p.normal:
+                continue
+            sets = [e for e in p.events if e.kind == "raw" and e.op.endswith("__setitem__") and
+                    e.kw.get("__effect__") is not None and e.kw["__effect__"].t[1] == "Wlink"]
+            if len(sets) != 1:
+                bad = (p, "create_link does not store exactly one link")
+                break
+            e = sets[0]
+            n += 1
+            val = e.args[1] if len(e.args) > 1 else None
+            if e.key is None or e.key.t != ("param", "name"):
+                bad = (p, "the link is not stored under the requested name")
+                break
+            if val is not None and is_const(val) and val.t[1] is None:
+                rep.assume("a target entity whose HDF5 group does not exist yields None, which h5py refuses to store")
+                continue
+            if val is None or "target" not in params_of(val.t):
+                bad = (p, "the stored object is not the target's own HDF5 group")
+                break
+            s = show(val.t)
+            if "SoftLink" in s or "ExternalLink" in s or "copy" in s:
+                bad = (p, "the link is not a hard link (%s)" % s)
+                break
+        rep.check(R3, "H5Group.create_link", bad is None and n > 0, bad[1] if bad else "no linking path",
+                  site=f.file + ":%d" % f.node.lineno, detail=describe_path(bad[0]) if bad else None)
+
+
 def run(M, rep, tier, only=None):
     ctx = Ctx(M)
     nctx = Ctx(M, coarse=False)
@@ -236,41 +276,7 @@ def run(M, rep, tier, only=None):
     container_identity(M, rep, R2, ctx, nctx)
 
     # ------------------------------------------------------------------ R3
-    rcfg = Config(M, mode="raw")
-    rcfg.compose = False
-    hg = M.classes.get("H5Group")
-    f = hg.methods.get("create_link") if hg else None
-    if f is None:
-        rep.bad(R3, "H5Group.create_link", "required mechanism not found")
-    else:
-        bad = None
-        n = 0
-        for p in explore(rcfg, f, "H5Group", None, 2000):
-            if not p.normal:
-                continue
-            sets = [e for e in p.events if e.kind == "raw" and e.op.endswith("__setitem__") and
-                    e.kw.get("__effect__") is not None and e.kw["__effect__"].t[1] == "Wlink"]
-            if len(sets) != 1:
-                bad = (p, "create_link does not store exactly one link")
-                break
-            e = sets[0]
-            n += 1
-            val = e.args[1] if len(e.args) > 1 else None
-            if e.key is None or e.key.t != ("param", "name"):
-                bad = (p, "the link is not stored under the requested name")
-                break
-            if val is not None and is_const(val) and val.t[1] is None:
-                rep.assume("a target entity whose HDF5 group does not exist yields None, which h5py refuses to store")
-                continue
-            if val is None or "target" not in params_of(val.t):
-                bad = (p, "the stored object is not the target's own HDF5 group")
-                break
-            s = show(val.t)
-            if "SoftLink" in s or "ExternalLink" in s or "copy" in s:
-                bad = (p, "the link is not a hard link (%s)" % s)
-                break
-        rep.check(R3, "H5Group.create_link", bad is None and n > 0, bad[1] if bad else "no linking path",
-                  site=f.file + ":%d" % f.node.lineno, detail=describe_path(bad[0]) if bad else None)
+    create_link_rule(M, rep, R3)
     cg = ctx.cg
     ncopy = 0
     for q, ops in sorted(cg.ops.items()):
